@@ -100,8 +100,8 @@ def plan(tier):
         for lo in range(0, 1600, 400):
             jobs.append({"part": "lengths", "kind": kind, "lo": lo, "hi": lo + 400})
     for i in range(n):
-        jobs.append({"part": "direct", "examples": 500 if tier == "quick" else 4000})
-        jobs.append({"part": "scenario", "op": ["read", "write"][i % 2], "examples": 60 if tier == "quick" else 700})
+        jobs.append({"part": "direct", "examples": 500 if tier == "quick" else 10000})
+        jobs.append({"part": "scenario", "op": ["read", "write"][i % 2], "examples": 60 if tier == "quick" else 1200})
         jobs.append({"part": "lifecycle", "examples": 8 if tier == "quick" else 60})
     return jobs
 
